@@ -216,6 +216,16 @@ def random_oplists(pid, rng, n):
                 if all(amb not in (r["u"], *r["us"]) for r in recs):
                     recs.append({"p": "http" if all("http" not in (r["p"], *r["ps"]) for r in recs) and delim not in "http" else "zq",
                                  "u": amb, "ps": [], "us": [], "pat": None})
+            if pid in ("C01", "C07", "C08") and rng.random() < 0.2:
+                # only C02/C03 restrict themselves to prefixes without the delimiter
+                weird = {"p": rng.choice(["obo", "NCBI", "x"]) + delim + rng.choice(["go", "GENE"]), "u": "http://weird.example/" + rng.choice(["a/", "b#"]),
+                         "ps": [], "us": [], "pat": None}
+                if all(weird["p"] not in (r["p"], *r["ps"]) and weird["u"] not in (r["u"], *r["us"]) for r in recs):
+                    recs.append(weird)
+                    if rng.random() < 0.5:
+                        short = weird["p"].split(delim)[0]
+                        if all(short not in (r["p"], *r["ps"]) for r in recs):
+                            recs.append({"p": short, "u": "http://short.example/", "ps": [], "us": [], "pat": None})
             ex = extra_probes(rng, recs, delim, upool)
             ops.append({"k": "new", "recs": recs, "delim": delim, "extra": ex})
             if rng.random() < 0.45:
